@@ -20,6 +20,7 @@ from ..rules import call_sites, event_facts, node_calls
 from ..mutate import mutate, remove_stmts, replace_stmt, replace_expr, parse_stmt, parse_expr
 from ..model import AnalysisError
 from ..x_scope import own_nodes
+from ..x_flow import resolve_local, unique_def
 
 TECHNIQUE = "backward expression resolution (def-use over single-assignment locals and list builders) + sanitizer (taint) predicate on every component of base string and key + sibling/call-site table agreement"
 EXPLANATION = (
@@ -198,6 +199,49 @@ def _env_from_target(target, comp):
     raise AnalysisError("parameter comprehension does not unpack (name, value)")
 
 
+def _as_comp(fi, src):
+    """(element expr, target, iterable) of a comprehension, or of the equivalent loop form
+    `L = []` ... `for T in ITER: L.append(ELT)` when ``src`` names such a list; None otherwise."""
+    if isinstance(src, (ast.GeneratorExp, ast.ListComp)) and len(src.generators) == 1 and not src.generators[0].ifs:
+        g = src.generators[0]
+        return src.elt, g.target, g.iter
+    if isinstance(src, ast.Name):
+        ds = _defs(fi, src.id)
+        if len(ds) == 1 and isinstance(ds[0].value, ast.List) and not ds[0].value.elts:
+            adds = [n for n in own_nodes(fi.node) if isinstance(n, ast.Call) and isinstance(n.func, ast.Attribute) and q.dotted(n.func.value) == src.id and n.func.attr in ("append", "extend", "insert")]
+            loops = [n for n in own_nodes(fi.node) if isinstance(n, ast.For) and not n.orelse and len(n.body) == 1 and isinstance(n.body[0], ast.Expr) and n.body[0].value in adds]
+            if len(adds) == 1 and len(loops) == 1 and adds[0].func.attr == "append" and len(adds[0].args) == 1:
+                return adds[0].args[0], loops[0].target, loops[0].iter
+    return None
+
+
+def _resolve_cond(fi, e):
+    """A Name bound once in each arm of one if/else -> the equivalent conditional expression."""
+    e = _resolve(fi, e)
+    if isinstance(e, ast.Name):
+        ds = _defs(fi, e.id)
+        if len(ds) == 2 and all(isinstance(d, ast.Assign) and len(d.targets) == 1 for d in ds):
+            for n in own_nodes(fi.node):
+                if isinstance(n, ast.If) and len(n.body) == 1 and len(n.orelse) == 1 and {id(n.body[0]), id(n.orelse[0])} == {id(ds[0]), id(ds[1])}:
+                    return ast.IfExp(test=n.test, body=n.body[0].value, orelse=n.orelse[0].value)
+    return e
+
+
+def _through_helper(ck, fi, m, names):
+    """If the expression is a call of a same-module function with a single return, continue the analysis inside it:
+    returns (context function, returned expression, parameter names mapped into the helper)."""
+    if isinstance(m, ast.Call) and isinstance(m.func, ast.Name) and ck.repo.has_func(fi.file, m.func.id) and not m.keywords:
+        h = ck.repo.func(fi.file, m.func.id)
+        hp = h.params()
+        rets = [r for r in own_nodes(h.node) if isinstance(r, ast.Return) and r.value is not None]
+        if len(rets) == 1 and len(hp) == len(m.args):
+            amap = {q.dotted(a): hp[i] for i, a in enumerate(m.args) if q.dotted(a)}
+            mapped = {k: amap.get(v) for k, v in names.items()}
+            ck.use(h)
+            return h, rets[0].value, mapped
+    return fi, m, names
+
+
 def check_signature_fn(ck, fi):
     params = fi.params()
     if len(params) < 5:
@@ -228,32 +272,41 @@ def check_signature_fn(ck, fi):
     ck.ob("C48.hmac-sha1", fi, rets[0] if rets else fi.node, ok_ret, "the signature is the base64 encoding of the MAC digest (no trailing newline)")
 
     # ---- message = base string
+    key_fi = fi
+    ofi = fi  # obligations are attributed to the anchored signature function even when the code lives in a helper
     m = _strip_wrappers(m_e)
     m = _resolve(fi, m)
     m = _strip_wrappers(m)
+    fi, m, mapped = _through_helper(ck, fi, m, {"method": p_method, "url": p_url, "params": p_params})
+    if None in mapped.values():
+        raise AnalysisError("%s: the base-string helper is not given method, url and parameters" % key_fi.qualname)
+    p_method, p_url, p_params = mapped["method"], mapped["url"], mapped["params"]
+    m = _strip_wrappers(_resolve(fi, m))
     jp = _join_parts(fi, m)
     if jp is None:
         raise AnalysisError("%s: the signed message is not `'&'.join(...)` (unknown idiom)" % fi.qualname)
     sep, src = jp
-    ck.ob("C48.base-string", fi, m, sep == "&", "base string components are joined with '&'")
-    if isinstance(src, ast.Name):
+    ck.ob("C48.base-string", ofi, m, sep == "&", "base string components are joined with '&'")
+    comp = _as_comp(fi, src)
+    if comp is None and isinstance(src, ast.Name):
         # the raw list is joined: nothing was encoded
-        ck.ob("C48.base-string", fi, m, False, "every base string component (method, URL, parameter string) is percent-encoded by _oauth_escape")
+        ck.ob("C48.base-string", ofi, m, False, "every base string component (method, URL, parameter string) is percent-encoded by _oauth_escape")
         list_name = src.id
     else:
-        if not (isinstance(src, (ast.GeneratorExp, ast.ListComp)) and len(src.generators) == 1 and isinstance(src.generators[0].target, ast.Name) and not src.generators[0].ifs):
+        if comp is None or not isinstance(comp[1], ast.Name):
             raise AnalysisError("%s: base string is not a comprehension over its elements (unknown idiom)" % fi.qualname)
-        g = src.generators[0]
-        ck.ob("C48.base-string", fi, src.elt, escaped(src.elt, set()) and g.target.id in q.names_in(src.elt), "every base string component (method, URL, parameter string) is percent-encoded by _oauth_escape")
-        if not isinstance(g.iter, ast.Name):
+        elt_, tgt_, iter_ = comp
+        ck.ob("C48.base-string", ofi, elt_, escaped(elt_, set()) and tgt_.id in q.names_in(elt_), "every base string component (method, URL, parameter string) is percent-encoded by _oauth_escape")
+        if not isinstance(iter_, ast.Name):
             raise AnalysisError("%s: base string elements are not a named list" % fi.qualname)
-        list_name = g.iter.id
+        list_name = iter_.id
     elems = _list_elements(fi, list_name)
-    ck.ob("C48.base-string", fi, m, len(elems) == 3, "the base string has exactly three components (found %d)" % len(elems), construct="components=%d" % len(elems))
+    ck.ob("C48.base-string", ofi, m, len(elems) == 3, "the base string has exactly three components (found %d)" % len(elems), construct="components=%d" % len(elems))
     if len(elems) != 3:
         return
     e_method, e_url, e_params = elems
-    ck.ob("C48.base-string", fi, e_method, isinstance(e_method, ast.Call) and q.call_attr(e_method) == "upper" and q.receiver(e_method) == p_method, "first component: the HTTP method, upper-cased")
+    e_method = _resolve(fi, e_method)
+    ck.ob("C48.base-string", ofi, e_method, isinstance(e_method, ast.Call) and q.call_attr(e_method) == "upper" and q.receiver(e_method) == p_method, "first component: the HTTP method, upper-cased")
     # URL
     u = _resolve(fi, e_url)
     parts = _flatten_add(u)
@@ -279,30 +332,33 @@ def check_signature_fn(ck, fi):
                 shape.append(("?", q.unparse(x)))
         ok_url = src_ok and shape == [("lower", sch), ("const", "://"), ("lower", net), ("raw", pth)]
         why = "source-ok=%s shape=%s" % (src_ok, shape)
-    ck.ob("C48.url-normalized", fi, u, ok_url, "second component: scheme.lower() + '://' + authority.lower() + path of the request URL, query and fragment excluded (%s)" % why, construct="url " + q.unparse(u))
+    ck.ob("C48.url-normalized", ofi, u, ok_url, "second component: scheme.lower() + '://' + authority.lower() + path of the request URL, query and fragment excluded (%s)" % why, construct="url " + q.unparse(u))
     # parameters
     pj = _join_parts(fi, _resolve(fi, e_params))
     if pj is None:
         raise AnalysisError("%s: the parameter string is not `'&'.join(...)` (unknown idiom)" % fi.qualname)
     psep, pgen = pj
-    if not (isinstance(pgen, (ast.GeneratorExp, ast.ListComp)) and len(pgen.generators) == 1 and not pgen.generators[0].ifs):
-        raise AnalysisError("%s: the parameter string is not a single comprehension (unknown idiom)" % fi.qualname)
-    pf = _pair_format(pgen.elt)
+    pcomp = _as_comp(fi, pgen)
+    if pcomp is None:
+        raise AnalysisError("%s: the parameter string is not a single comprehension / append loop (unknown idiom)" % fi.qualname)
+    p_elt, p_tgt, p_iter = pcomp
+    pf = _pair_format(p_elt)
     if pf is None:
-        raise AnalysisError("%s: cannot take `name=value` apart in %s (unknown idiom)" % (fi.qualname, q.unparse(pgen.elt)))
+        raise AnalysisError("%s: cannot take `name=value` apart in %s (unknown idiom)" % (fi.qualname, q.unparse(p_elt)))
     k_expr, eq, v_expr = pf
-    ck.ob("C48.param-format", fi, pgen.elt, psep == "&" and eq == "=", "pairs are `name=value` joined with '&'")
-    is_sorted, comp, source = _iter_info(fi, pgen.generators[0].iter)
-    env = _env_from_target(pgen.generators[0].target, comp)
-    tk, tv = (t.id for t in pgen.generators[0].target.elts)
-    ck.ob("C48.params-sorted", fi, pgen.generators[0].iter, is_sorted, "parameters are put in sorted order before they are concatenated")
-    ck.ob("C48.params-sorted", fi, pgen.generators[0].iter, source == p_params, "all request parameters (the dict that is sent) enter the parameter string", construct="source " + str(source))
-    pair_txt = q.normalize_construct(pgen.elt, {tk, tv})
-    ck.ob("C48.param-names-escaped", fi, k_expr, escaped(k_expr, env) and tk in q.names_in(k_expr), "parameter NAMES are percent-encoded (RFC 5849 §3.4.1.3.2: name and value are each encoded)",
+    ck.ob("C48.param-format", ofi, p_elt, psep == "&" and eq == "=", "pairs are `name=value` joined with '&'")
+    is_sorted, comp, source = _iter_info(fi, p_iter)
+    env = _env_from_target(p_tgt, comp)
+    tk, tv = (t.id for t in p_tgt.elts)
+    ck.ob("C48.params-sorted", ofi, p_iter, is_sorted, "parameters are put in sorted order before they are concatenated")
+    ck.ob("C48.params-sorted", ofi, p_iter, source == p_params, "all request parameters (the dict that is sent) enter the parameter string", construct="source " + str(source))
+    pair_txt = q.normalize_construct(p_elt, {tk, tv})
+    ck.ob("C48.param-names-escaped", ofi, k_expr, escaped(k_expr, env) and tk in q.names_in(k_expr), "parameter NAMES are percent-encoded (RFC 5849 §3.4.1.3.2: name and value are each encoded)",
           construct="name part of " + pair_txt)
-    ck.ob("C48.param-values-escaped", fi, v_expr, escaped(v_expr, env) and tv in q.names_in(v_expr), "parameter VALUES are percent-encoded", construct="value part of " + pair_txt)
+    ck.ob("C48.param-values-escaped", ofi, v_expr, escaped(v_expr, env) and tv in q.names_in(v_expr), "parameter VALUES are percent-encoded", construct="value part of " + pair_txt)
 
     # ---- key
+    fi = key_fi
     k = _resolve(fi, _strip_wrappers(k_e))
     kj = _join_parts(fi, k)
     if kj is None:
@@ -318,6 +374,7 @@ def check_signature_fn(ck, fi):
     ck.ob("C48.key", fi, k, len(kel) == 2, "the key has exactly two parts: consumer secret & token secret (found %d)" % len(kel), construct="key-parts=%d" % len(kel))
     if len(kel) != 2:
         return
+    kel = [_resolve_cond(fi, x) for x in kel]
     for e, owner, label in ((kel[0], p_cons, "consumer"), (kel[1], p_token, "token")):
         core = _strip_wrappers(e)
         secret_subs = [s for s in ast.walk(core) if isinstance(s, ast.Subscript) and q.dotted(s.value) == owner and q.is_const(s.slice, "secret")]
@@ -331,23 +388,79 @@ def check_signature_fn(ck, fi):
         raise AnalysisError("%s: second key part is not conditional on the token (unknown idiom)" % fi.qualname)
 
 
+def _classify_quote(ck, fi, call, env=None, depth=0):
+    """('quote'|'quote_plus', safe-set ok?) for a call that percent-encodes, resolving tornado helper functions
+    (escape.url_escape -> urllib.parse.quote_plus/quote chosen by its `plus` argument).  AnalysisError if unknown."""
+    env = env or {}
+    f = call.func
+    nm = q.dotted(f) or ""
+    last = nm.split(".")[-1]
+    if last in ("quote", "quote_plus") and ("parse" in nm or "urllib" in nm or (nm == last and unique_def(fi, last) is None)):
+        r = _safe_ok(call)
+        if r is None:
+            raise AnalysisError("quote() with a non-constant safe set in %s" % fi.qualname)
+        return last, r
+    if isinstance(f, ast.Name):
+        d = unique_def(fi, f.id)
+        if isinstance(d, ast.IfExp):
+            try:
+                pick = d.body if q.fold(d.test, env) else d.orelse
+            except q.NotFoldable as e:
+                raise AnalysisError("cannot decide which quoting function %s selects (%s)" % (fi.qualname, e))
+            return _classify_quote(ck, fi, ast.Call(func=pick, args=call.args, keywords=call.keywords), env, depth)
+        if d is not None and isinstance(d, (ast.Attribute, ast.Name)):
+            return _classify_quote(ck, fi, ast.Call(func=d, args=call.args, keywords=call.keywords), env, depth)
+    # a tornado helper: module function of this module or of tornado/escape.py
+    target = None
+    if isinstance(f, ast.Name) and ck.repo.has_func(fi.file, f.id):
+        target = ck.repo.func(fi.file, f.id)
+    elif isinstance(f, ast.Attribute) and q.dotted(f.value) == "escape" and ck.repo.has_func("tornado/escape.py", f.attr):
+        target = ck.repo.func("tornado/escape.py", f.attr)
+    if target is None or depth >= 2:
+        raise AnalysisError("%s: percent-encoding through %s is not understood" % (fi.qualname, nm or q.unparse(f)))
+    ck.use(target)
+    # bind constant arguments / defaults of the helper
+    a = target.node.args
+    pnames = [x.arg for x in a.args]
+    henv = {}
+    defaults = dict(zip(pnames[len(pnames) - len(a.defaults):], a.defaults))
+    for pn, dv in defaults.items():
+        if isinstance(dv, ast.Constant):
+            henv[pn] = dv.value
+    for i, av in enumerate(call.args):
+        if i < len(pnames):
+            henv.pop(pnames[i], None)
+            if isinstance(av, ast.Constant):
+                henv[pnames[i]] = av.value
+    for kw in call.keywords:
+        henv.pop(kw.arg, None)
+        if isinstance(kw.value, ast.Constant):
+            henv[kw.arg] = kw.value.value
+    rets = [r for r in own_nodes(target.node) if isinstance(r, ast.Return) and r.value is not None]
+    if len(rets) != 1 or not isinstance(rets[0].value, ast.Call):
+        raise AnalysisError("%s: helper %s is not a single `return <call>`" % (fi.qualname, target.qualname))
+    return _classify_quote(ck, target, rets[0].value, henv, depth + 1)
+
+
 def rule_escape_fn(ck):
     fi = ck.func(F, "_oauth_escape")
-    quotes = [c for c in q.calls(fi.node) if (q.dotted(c.func) or "").split(".")[-1] in ("quote", "quote_plus")]
-    ck.floor("C48.escape-unreserved", len(quotes), 1, "quote calls in _oauth_escape")
-    n = 0
-    for rel_fn in ("_oauth_escape",) + SIGS:
+    rets = [r for r in own_nodes(fi.node) if isinstance(r, ast.Return) and r.value is not None]
+    if len(rets) != 1:
+        raise AnalysisError("_oauth_escape is not a single-return function")
+    rv = resolve_local(fi, rets[0].value)
+    if not isinstance(rv, ast.Call):
+        raise AnalysisError("_oauth_escape does not return the result of an encoding call")
+    kind, safe = _classify_quote(ck, fi, rv)
+    ck.ob("C48.escape-unreserved", fi, rv, kind == "quote" and safe, "_oauth_escape percent-encodes with urllib.parse.quote leaving only RFC 3986 unreserved characters unescaped (resolved: %s, safe set ok: %s; quote_plus turns ' ' into '+', the default safe='/' keeps '/')" % (kind, safe))
+    n = 1
+    for rel_fn in SIGS:
         f = ck.func(F, rel_fn)
         for c in q.calls(f.node):
             nm = (q.dotted(c.func) or "").split(".")[-1]
             if nm in ("quote", "quote_plus"):
                 n += 1
-                r = _safe_ok(c)
-                if r is None:
-                    raise AnalysisError("quote() with a non-constant safe set in %s" % rel_fn)
-                ck.ob("C48.escape-unreserved", f, c, nm == "quote" and r, "percent-encoding leaves only RFC 3986 unreserved characters unescaped (safe ⊆ '-._~'; quote_plus / default safe='/' are wrong)")
-    rets = [r for r in own_nodes(fi.node) if isinstance(r, ast.Return)]
-    ck.ob("C48.escape-unreserved", fi, rets[0] if rets else fi.node, len(rets) == 1 and rets[0].value in quotes, "_oauth_escape returns the quoted text unchanged")
+                kind2, safe2 = _classify_quote(ck, f, c)
+                ck.ob("C48.escape-unreserved", f, c, kind2 == "quote" and safe2, "percent-encoding leaves only RFC 3986 unreserved characters unescaped (safe ⊆ '-._~'; quote_plus / default safe='/' are wrong)")
     # text is encoded as UTF-8 before quoting (or quote's default utf-8 is used)
     for c in q.calls(fi.node):
         if isinstance(c.func, ast.Attribute) and c.func.attr == "encode":
@@ -490,6 +603,8 @@ MUTANTS = [
     ("1.0a: token secret not percent-encoded in the key", _m("_oauth10a_signature", replace_expr(lambda n: isinstance(n, ast.Call) and _src(n) == "urllib.parse.quote(token['secret'], safe='~')", lambda n: parse_expr("token['secret']"))), "C48.key-parts-encoded"),
     ("1.0a: key parts swapped", _m("_oauth10a_signature", _swap_key_parts), "C48.key"),
     ("_oauth_escape keeps '/' unescaped", _m("_oauth_escape", replace_expr(lambda n: isinstance(n, ast.Constant) and n.value == "~", lambda n: ast.Constant(value="/~"))), "C48.escape-unreserved"),
+    ("seeded C48-adv2: _oauth_escape delegates to escape.url_escape (quote_plus)", _m("_oauth_escape", replace_stmt(lambda st: isinstance(st, ast.Return), lambda st: [parse_stmt("return escape.url_escape(val)")])), "C48.escape-unreserved"),
+    ("_oauth_escape via url_escape(plus=False): '/' left unescaped", _m("_oauth_escape", replace_stmt(lambda st: isinstance(st, ast.Return), lambda st: [parse_stmt("return escape.url_escape(val, plus=False)")])), "C48.escape-unreserved"),
     ("_oauth_escape uses quote_plus", _m("_oauth_escape", replace_expr(lambda n: isinstance(n, ast.Attribute) and n.attr == "quote", lambda n: ast.Attribute(value=n.value, attr="quote_plus", ctx=ast.Load()))), "C48.escape-unreserved"),
     ("1.0a: SHA-256 instead of SHA-1", _m("_oauth10a_signature", replace_expr(lambda n: isinstance(n, ast.Attribute) and n.attr == "sha1", lambda n: ast.Attribute(value=n.value, attr="sha256", ctx=ast.Load()))), "C48.hmac-sha1"),
     ("1.0a: trailing newline of b2a_base64 kept", _m("_oauth10a_signature", replace_stmt(lambda st: isinstance(st, ast.Return), lambda st: [parse_stmt("return binascii.b2a_base64(hash.digest())")])), "C48.hmac-sha1"),
